@@ -332,7 +332,8 @@ def _parse_options(buffer: Buffer, mode:CoAPOptionMode) -> Tuple[List[FieldDescr
         elif option_length == CoAPDefinitions.OPTION_LENGTH_EXTENDED_16BITS:
             # option_length_extended: 16 bits
             option_length_extended: Buffer = option_bytes[option_offset:option_offset+16]
-            option_length_extended_int: int = option_length_extended.value()
+            # RFC 7252 section 3.1: the option length is the 16-bit extended value plus 269 (nibble is 14)
+            option_length_extended_int: int = option_length_extended.value() + 255
             option_field_positions[CoAPFields.OPTION_LENGTH_EXTENDED] += 1
             option_offset += 16
 
